@@ -104,6 +104,7 @@ class Run:
         self.notes = {}
         self.axioms = set()
         self.not_proved = []
+        self.replay_mode = False   # --replay runs write evidence/<id>.replay.json, never the check's evidence file
 
     # ---------- bookkeeping
     def oblige(self, name, ok, kind="theorem"):
@@ -243,7 +244,8 @@ class Run:
               "coverage": cov, "assumptions": self.assumptions, "wall_s": round(time.time() - self.t0, 2),
               "violations": violations}
         os.makedirs(os.path.join(VERIF, "evidence"), exist_ok=True)
-        with open(os.path.join(VERIF, "evidence", f"{self.prop}.json"), "w") as fh:
+        evname = f"{self.prop}.replay.json" if self.replay_mode else f"{self.prop}.json"
+        with open(os.path.join(VERIF, "evidence", evname), "w") as fh:
             json.dump(ev, fh, indent=1, default=str)
         for l in lines:
             print(l)
@@ -323,3 +325,12 @@ def scan_forbidden():
                 if depth == 0 and re.match(r"\s*(Variable|Variables|Hypothesis|Hypotheses|Context)\b", line):
                     hits.append((os.path.relpath(p, VERIF), ln, "outside a Section: " + line.strip()[:100]))
     return hits
+
+
+def coqchk(theories, timeout=1500):
+    """independent re-check (coqchk -o) of compiled static theories, e.g. ["C06/Props"]; returns
+    (ok, summary text with the axiom list)."""
+    mods = " ".join("QV." + t.replace("/", ".") for t in theories)
+    rc, out = sh(f"timeout {timeout} coqchk -silent -o -Q theories QV {mods}", cwd=COQ, timeout=timeout + 20)
+    i = out.find("CONTEXT SUMMARY")
+    return rc == 0, " ".join((out[i:] if i >= 0 else out[-1500:]).split())[:3000]
